@@ -372,6 +372,25 @@ var c07Special = []func() []gen.Node{
 		return []gen.Node{&gen.NSet{Name: "loop", X: str("mine")}, pr(nm("loop")), tx("|"), &gen.NFor{Val: "i", Seq: &gen.EArr{Els: []gen.Expr{num(1), num(2)}}, Body: []gen.Node{pr(attr(nm("loop"), "index")), tx(",")}}, tx("|"), pr(nm("loop")),
 			&gen.NFor{Val: "i", Seq: &gen.EArr{}, Body: []gen.Node{tx("never")}, HasElse: true, Else: []gen.Node{tx("(else:"), pr(nm("loop")), tx(")")}}, c07Probe("end")}
 	},
+	func() []gen.Node { // loop variables are variables whatever they are called: "_", "__", "_1" bind and shadow like any name
+		var out []gen.Node
+		for _, n := range []string{"_", "__", "_1", "i_", "I"} {
+			out = append(out, &gen.NSet{Name: n, X: str("outer-" + n)},
+				&gen.NFor{Val: n, Seq: &gen.EArr{Els: []gen.Expr{num(1), num(2)}}, Body: []gen.Node{pr(nm(n)), tx(",")}}, tx("/"), pr(nm(n)), tx("|"),
+				&gen.NFor{Key: n, Val: "v", Seq: &gen.EArr{Els: []gen.Expr{str("a"), str("b")}}, Body: []gen.Node{pr(nm(n)), tx("="), pr(nm("v")), tx(",")}}, tx("/"), pr(nm(n)), tx("|"),
+				&gen.NFor{Key: "k", Val: n, Seq: &gen.EHash{Keys: []gen.Expr{str("hk")}, Vals: []gen.Expr{str("hv")}}, Body: []gen.Node{pr(nm("k")), tx("="), pr(nm(n)), tx(",")}}, tx("/"), pr(nm(n)), tx(";"))
+		}
+		m := &gen.NMacro{Name: "um", Params: []string{"_", "__"}, Body: []gen.Node{tx("[um:"), pr(nm("_")), tx(","), pr(nm("__")), tx("]")}}
+		return append(append([]gen.Node{m}, out...), pr(&gen.EMethod{X: nm("_self"), Name: "um", Args: []gen.Expr{str("p1"), str("p2")}}), pr(nm("_")), c07Probe("end"))
+	},
+	func() []gen.Node { // an assignment made while the name or the with-hash of an include is evaluated is made before the include
+		name := func(v string) gen.Expr {
+			return &gen.EBin{Op: "~", L: &gen.ECall{Fn: "setvar", Args: []gen.Expr{str("a"), str(v)}}, R: str("showa")}
+		}
+		return []gen.Node{&gen.NSet{Name: "a", X: str("old")}, &gen.NInclude{Tpl: name("new1")}, pr(nm("a")), tx("|"), &gen.NEmbed{Tpl: name("new2")}, pr(nm("a")), tx("|"),
+			&gen.NInclude{Tpl: str("showa"), With: &gen.EHash{Keys: []gen.Expr{nm("b")}, Vals: []gen.Expr{&gen.ECall{Fn: "setvar", Args: []gen.Expr{str("a"), str("new3")}}}}}, pr(nm("a")), tx("|"),
+			&gen.NFor{Val: "i", Seq: &gen.EArr{Els: []gen.Expr{num(1), num(2)}}, Body: []gen.Node{&gen.NInclude{Tpl: name("in-loop")}}}, pr(nm("a")), c07Probe("end")}
+	},
 	func() []gen.Node { // the else branch of a loop is no loop body: what it sets (or captures) is set where the loop stands
 		empty := func(n string, els ...gen.Node) gen.Node {
 			return &gen.NFor{Val: "i", Seq: &gen.EArr{}, Body: []gen.Node{tx("never")}, HasElse: true, Else: els}
@@ -389,7 +408,8 @@ var c07Special = []func() []gen.Node{
 
 func c07SpecialCase(j int) (*Program, string) {
 	ts := map[string]*gen.Template{"main": tpl("main", c07Special[j]()...),
-		"lib": tpl("lib", &gen.NMacro{Name: "lm", Params: []string{"loop"}, Body: []gen.Node{tx("[lm:"), pr(nm("loop")), tx("]")}})}
+		"lib":   tpl("lib", &gen.NMacro{Name: "lm", Params: []string{"loop"}, Body: []gen.Node{tx("[lm:"), pr(nm("loop")), tx("]")}}),
+		"showa": tpl("showa", tx("[showa:"), pr(nm("a")), tx("]"))}
 	return &Program{Templates: ts, Main: "main", Ctx: map[string]interface{}{}}, fmt.Sprintf("special/%d", j)
 }
 
